@@ -1561,24 +1561,34 @@ class ConfigList(UserList):
                                 ),
                             )
                         # blank_line_keep for Github Issue #229
-                        parent.children.append(obj)
+                        self._reparent(parent, obj)
                         parent.child_indent = 0
-                        obj.parent = parent
                         break
                     else:
                         # all non-banner-parent lines should hit this condition
                         if self.debug > 0:
                             logger.debug("found banner child {}".format(obj))
 
-                    parent.children.append(obj)
+                    self._reparent(parent, obj)
                     parent.child_indent = 0
-                    obj.parent = parent
                     obj.blank_line_keep = True
 
                 except IndexError:
                     break
 
         return None
+
+    # This method is on ConfigList()
+    @logger.catch(reraise=True)
+    def _reparent(self, parentobj: BaseCfgLine, childobj: BaseCfgLine) -> None:
+        """Make ``childobj`` a child of ``parentobj`` only: remove it from the children of its previous parent and keep the children of ``parentobj`` in line-number order."""
+        old_parent = childobj.parent
+        if (old_parent is not childobj) and (old_parent is not parentobj) and (old_parent is not None):
+            old_parent.children[:] = [ii for ii in old_parent.children if ii is not childobj]
+        if not any(ii is childobj for ii in parentobj.children):
+            parentobj.children.append(childobj)
+            parentobj.children.sort(key=lambda ii: ii.linenum)
+        childobj.parent = parentobj
 
     # This method is on ConfigList()
     @logger.catch(reraise=True)
@@ -1611,8 +1621,7 @@ class ConfigList(UserList):
                 cobj = self.data[idx]
                 # blank_line_keep for original ciscoconfpasre Github Issue #229
                 cobj.blank_line_keep = True
-                cobj.parent = pobj
-                pobj.children.append(cobj)
+                self._reparent(pobj, cobj)
                 # If we hit the end of the macro, break out of the loop
                 if cobj.text.rstrip() == "@":
                     finished = True
